@@ -19,6 +19,7 @@ type Profile struct {
 	Prop     string
 	Name     string
 	Race     bool // needs the -race binary; a race report is a violation of class data-race
+	Pre      bool // needs the binary built against the instrumented copy of rux (statement-level preemption)
 	Quick    int  // runs in the quick tier
 	Thorough int  // runs in the thorough tier
 	Gen      func(rng *Rng, sc *Scenario)
@@ -60,6 +61,8 @@ func makeScenario(p *Profile, seed uint64, run int) *Scenario {
 func init() {
 	register(&Profile{Prop: "C03", Name: "concurrent", Quick: 12000, Thorough: 400000, Gen: genC03, Check: checkC03,
 		Rule: "a run is non-trivial when the executed schedule switched between different in-flight requests at least twice"})
+	register(&Profile{Prop: "C03", Name: "concurrent-pre", Pre: true, Quick: 6000, Thorough: 60000, Gen: preempt(genC03), Check: checkC03,
+		Rule: "as concurrent; a task can be preempted before every statement of rux (binary built against the instrumented copy)"})
 	register(&Profile{Prop: "C03", Name: "concurrent-race", Race: true, Quick: 3000, Thorough: 80000, Gen: genC03Race, Check: checkC03,
 		Rule: "as concurrent; executed in a -race build in which baton hand-offs are invisible to the detector"})
 }
@@ -178,6 +181,10 @@ func cmdExec(args []string) int {
 		fmt.Fprintln(os.Stderr, "scenario needs the -race binary")
 		return 2
 	}
+	if sc.Pre && !preEnabled {
+		fmt.Fprintln(os.Stderr, "scenario needs the binary built against the instrumented copy of rux (ruxsim-pre)")
+		return 2
+	}
 	startWatchdog(60 * time.Second)
 	out := execScenario(sc, *verbose)
 	b, _ := json.Marshal(out)
@@ -196,6 +203,7 @@ type WorkerViol struct {
 	Viol     Violation `json:"viol"`
 	Scenario *Scenario `json:"scenario"`
 	Fatal    bool      `json:"fatal,omitempty"`
+	Switches []PPoint  `json:"switches,omitempty"` // the executed schedule of the history run, as explicit points (preemption profiles)
 }
 
 type WorkerStats struct {
@@ -233,6 +241,10 @@ func cmdWorker(args []string) int {
 		fmt.Fprintln(os.Stderr, "profile needs the -race binary")
 		return 2
 	}
+	if p.Pre && !preEnabled {
+		fmt.Fprintln(os.Stderr, "profile needs the binary built against the instrumented copy of rux (ruxsim-pre)")
+		return 2
+	}
 	startWatchdog(60 * time.Second)
 	w := bufio.NewWriter(os.Stdout)
 	defer w.Flush()
@@ -249,6 +261,7 @@ func cmdWorker(args []string) int {
 		}
 		sc := makeScenario(p, *seed, run)
 		raceBefore := raceErrors()
+		firstSwitches, firstSwitchesSet = nil, false
 		co := p.Check(sc)
 		st.Runs++
 		st.LastRun = run
@@ -305,7 +318,11 @@ func cmdWorker(args []string) int {
 			}
 		}
 		for _, v := range co.Viol {
-			enc.Encode(WorkerViol{Type: "viol", Run: run, Viol: v, Scenario: sc, Fatal: fatal})
+			wv := WorkerViol{Type: "viol", Run: run, Viol: v, Scenario: sc, Fatal: fatal}
+			if sc.Pre && sc.PreRate > 0 {
+				wv.Switches = firstSwitches
+			}
+			enc.Encode(wv)
 		}
 		if fatal {
 			exit = 3
